@@ -43,13 +43,14 @@ theorem inv_progress (hi : Inv cfg s) : (∃ l e t, next cfg s l = some (e, t)) 
     | nil => exact Or.inr (Or.inl ⟨hc, hs⟩)
     | cons op rest =>
       left
-      refine ⟨.api false false, ?_⟩
       cases op with
-      | next => cases hn : s.cur.next <;> simp [next, apiStep, hc, hs, hn]
+      | nexts => exact ⟨.api true false, by simp [next, apiStep, hc, hs]⟩
+      | next => refine ⟨.api false false, ?_⟩; cases hn : s.cur.next <;> simp [next, apiStep, hc, hs, hn]
       | seek off =>
+        refine ⟨.api false false, ?_⟩
         by_cases hf : s.cur.base = some off ∧ good s.cur = true <;> simp [next, apiStep, hc, hs, hf]
-      | close => simp [next, apiStep, hc, hs]
-      | note id => simp [next, apiStep, hc, hs]
+      | close => exact ⟨.api false false, by simp [next, apiStep, hc, hs]⟩
+      | note id => exact ⟨.api false false, by simp [next, apiStep, hc, hs]⟩
   | scan e i =>
     left
     have hx := hi.expScan e i hc
